@@ -135,7 +135,10 @@ def run(tier, seed, replay):
         # child by the compiler; the documented syntax does not say whether a comment is a child, so neither verdict is required)
         for t in ('<slot> </slot>', '<include src="b">\n</include>', '<import src="b"></import>', '<template is="t">\t</template>'):
             clean.append(t)
-        for name in ("amp", "lt", "gt", "quot", "apos", "nbsp", "copy", "hellip", "NotEqualTilde"):
+        # the same name under two different prefixes is not a duplicate
+        for t in ('<v class:a="{{ x }}" style:a="b"/>', '<v style:a="b" class:a="{{ x }}" data:a="1" mark:a="2" model:a="{{ y }}" change:a="{{ m.f }}"/>'):
+            clean.append(t)
+        for name in ("amp", "lt", "gt", "quot", "apos", "nbsp", "copy", "hellip", "NotEqualTilde", "frac12", "sup2", "there4"):
             clean.append('<v a="&%s;">&%s;{{ c }}</v>' % (name, name))
         clean = list(dict.fromkeys(clean))
         vcases = [{"id": i, "files": [["a", s]], "want": ["trace"]} for i, s in enumerate(clean)]
